@@ -30,6 +30,26 @@ def as_list(kl):
     return [(k.key, k.v, k.w) for k in kl]
 
 
+def content(obj):
+    """content of the attribute; an attribute holding nothing counts as no elements"""
+    try:
+        kl = obj.ks
+    except AttributeError:
+        return []
+    return as_list(kl)
+
+
+def new_elem(K, how, key, v):
+    """(positional arguments, keywords, expected record) of a with_<item> call building element `key`"""
+    if how == "key":
+        return [key], {}, (key, 1, "w")
+    if how == "key_kw":
+        return [key], {"v": v}, (key, v, "w")
+    if how == "kw":
+        return [], {"key": key, "v": v}, (key, v, "w")
+    return [K(key, v=v)], {}, (key, v, "w")
+
+
 def gen_chain(rng, n_ops):
     keys = ["a", "b", "c", "d", ""]
     start = rng.sample(keys, rng.choice([0, 1, 2, 3]))
@@ -43,8 +63,38 @@ def gen_chain(rng, n_ops):
         tform = rng.choice(["raw", "raw", "obj_eq", "obj_diff"]) if isinstance(target, str) else "raw"
         ops.append({"kind": kind, "key": rng.choice(keys), "v": rng.choice([0, 2, 7]), "target": target,
                     "field": rng.choice(["v", "w"]), "inplace": rng.random() < 0.4, "same_key": rng.random() < 0.6,
-                    "tform": tform})
-    return {"start": start, "ops": ops}
+                    "tform": tform,
+                    # how the new element of with_<item> is handed over: element object, bare key
+                    # (promoted), bare key + keywords, keywords only
+                    "how": rng.choice(HOWS),
+                    # `_insert=True` given WITHOUT `_index` (kind "with"): appended all the same
+                    "ins": rng.random() < 0.4,
+                    "noif": rng.random() < 0.06})
+    # the attribute may hold nothing at all: the first helper creates the container
+    return {"start": start, "ops": ops, "missing": not start and rng.random() < 0.5}
+
+
+HOWS = ["obj", "obj", "key", "key_kw", "kw"]
+
+
+def flag_chains():
+    """`with_<item>` WITHOUT `_index` on a missing / empty / one-element / three-element KeyedList:
+    element object, bare key (promoted), bare key + keywords, keywords only; with and without
+    `_insert=True` (nothing to insert before: appended), `_if=False`, a duplicate key; copy and in place"""
+    chains = []
+    base = {"kind": "with", "target": 0, "field": "v", "same_key": False, "tform": "raw", "v": 7}
+    for start, missing in (([], True), ([], False), (["a"], False), (["c", "", "a"], False)):
+        for how in ("obj", "key", "key_kw", "kw"):
+            for key in ("b", "", "a"):
+                for ins in (True, False):
+                    for inplace in (False, True):
+                        for noif in (False, True):
+                            if noif and (not ins or key == "a"):
+                                continue
+                            chains.append({"start": start, "missing": missing, "ops": [
+                                dict(base, key=key, how=how, ins=ins, inplace=inplace, noif=noif),
+                                dict(base, key="d", how=how, ins=ins, inplace=inplace, noif=False, v=0)]})
+    return chains
 
 
 def aimed():
@@ -80,33 +130,38 @@ def locate(model, target):
 def run_chain(chain):
     """returns None when everything agrees, else a description of the first disagreement"""
     K, S = build()
-    obj = S(ks=[K(k) for k in chain["start"]])
+    obj = S() if chain.get("missing") else S(ks=[K(k) for k in chain["start"]])
     model = [(k, 1, "w") for k in chain["start"]]
     for step, op in enumerate(chain["ops"]):
-        before = as_list(obj.ks)
+        before = content(obj)
         kw = {"_inplace": True} if op["inplace"] else {}
+        if op.get("noif"):
+            kw["_if"] = False
+        how = op.get("how", "obj")
         expect_err, new_model = False, list(model)
         probe_obj = None
         kind, tgt = op["kind"], op["target"]
         try:
             if kind == "with":
-                elem = (op["key"], op["v"], "w")
+                pargs, pkw, elem = new_elem(K, how, op["key"], op["v"])
                 if any(r[0] == elem[0] for r in model):
                     expect_err = True
                 else:
                     new_model.append(elem)
-                call = lambda: obj.with_k(K(op["key"], v=op["v"]), **kw)
+                if op.get("ins"):
+                    kw["_insert"] = True     # without _index: nothing to insert before, appended
+                call = lambda: obj.with_k(*pargs, **pkw, **kw)
             elif kind in ("with_at", "insert"):
                 idx = tgt if isinstance(tgt, int) else 0
                 pos = locate(model, idx)
                 key = model[pos][0] if (op["same_key"] and pos is not None) else op["key"]
-                elem = (key, op["v"], "w")
+                pargs, pkw, elem = new_elem(K, how, key, op["v"])
                 if kind == "with_at":
                     if pos is None or any(r[0] == key for j, r in enumerate(model) if j != pos):
                         expect_err = True
                     else:
                         new_model[pos] = elem
-                    call = lambda: obj.with_k(K(key, v=op["v"]), _index=idx, **kw)
+                    call = lambda: obj.with_k(*pargs, **pkw, _index=idx, **kw)
                 else:
                     if any(r[0] == key for r in model):
                         expect_err = True
@@ -114,7 +169,7 @@ def run_chain(chain):
                         n = len(model)
                         p = max(idx + n, 0) if idx < 0 else min(idx, n)
                         new_model.insert(p, elem)
-                    call = lambda: obj.with_k(K(key, v=op["v"]), _index=idx, _insert=True, **kw)
+                    call = lambda: obj.with_k(*pargs, **pkw, _index=idx, _insert=True, **kw)
             else:
                 pos = locate(model, tgt)
                 tform = op.get("tform", "raw")
@@ -145,6 +200,8 @@ def run_chain(chain):
                     if pos is not None:
                         del new_model[pos]
                     call = lambda: obj.without_k(tgt, **kw)
+            if op.get("noif"):
+                expect_err, new_model = False, list(model)     # _if=False: nothing happens
             res = call()
             err = None
         except (IndexError, KeyError, ValueError) as e:
@@ -158,12 +215,12 @@ def run_chain(chain):
         if err is not None:
             if not expect_err:
                 return dict(where, what="unexpected %s: %s" % (type(err).__name__, err))
-            if as_list(obj.ks) != before:
-                return dict(where, what="the call raised and changed the container", observed=as_list(obj.ks))
+            if content(obj) != before:
+                return dict(where, what="the call raised and changed the container", observed=content(obj))
             continue
         if expect_err:
-            return dict(where, what="missing target / duplicate key not reported", observed=as_list(res.ks))
-        got = as_list(res.ks)
+            return dict(where, what="missing target / duplicate key not reported", observed=content(res))
+        got = content(res)
         if got != new_model:
             return dict(where, what="content differs from the plain list operation", expected=new_model, observed=got)
         for j, rec in enumerate(new_model):
@@ -174,8 +231,8 @@ def run_chain(chain):
             if res is not obj:
                 return dict(where, what="in-place call did not return the receiver")
         else:
-            if as_list(obj.ks) != before:
-                return dict(where, what="copy-on-write call changed the receiver", observed=as_list(obj.ks))
+            if content(obj) != before:
+                return dict(where, what="copy-on-write call changed the receiver", observed=content(obj))
             obj = res
         model = new_model
     return None
@@ -201,7 +258,7 @@ def shrink(chain):
 
 def probe(chk, rng, n_chains, n_ops, extra):
     failing, reported = 0, set()
-    chains = aimed()
+    chains = aimed() + flag_chains()
     n_aimed = len(chains)
     chains += [gen_chain(rng, n_ops) for _ in range(n_chains)]
     for chain in chains:
